@@ -104,7 +104,7 @@ def main():
         ],
         "checks": checks,
         "not_applicable": na,
-        "notes": "All checks: exit 0 held / 1 VIOLATION / 2 harness error. VERIF_SEED and VERIF_TIER honoured. Known findings and fixed defects: known_findings.json. Five genuine defects were repaired in /repo with fix: commits (8633b4a, 2b3c92e, b68755c, da69cee, aebf71c).",
+        "notes": "All checks: exit 0 held / 1 VIOLATION / 2 harness error. VERIF_SEED and VERIF_TIER honoured. Known findings and fixed defects: known_findings.json. Six genuine defects were repaired in /repo with fix: commits (8633b4a, 2b3c92e, b68755c, da69cee, aebf71c, 8612dc6).",
     }
     json.dump(m, open(os.path.join(VERIF, "MANIFEST.json"), "w"), indent=1)
 
